@@ -53,8 +53,11 @@ Gen(p) ==
        ELSE IF p.map # <<>> /\ ~Has(p.src, p.map[1]) THEN [fail |-> "unused-map-key", cases |-> w.cases, cast |-> FALSE]
        ELSE [fail |-> "", cases |-> w.cases, cast |-> FALSE]
 
+\* the zero value of the target: the abstract value 0 for int enums; float / string enums materialise 0 as 0.5 / "x",
+\* so their zero value (0.0 / "") is no enumerated value: -2
+ZeroV(p) == IF p.kind = "int" THEN 0 ELSE -2
 \* run-time meaning of the emitted switch for input value x
-Act(p, a, x) == CASE a = "@error" -> [k |-> "err"] [] a = "@panic" -> [k |-> "panic"] [] a = "@ignore" -> [k |-> "val", v |-> 0]
+Act(p, a, x) == CASE a = "@error" -> [k |-> "err"] [] a = "@panic" -> [k |-> "panic"] [] a = "@ignore" -> [k |-> "val", v |-> ZeroV(p)]
                   [] OTHER -> [k |-> "val", v |-> ValOf(p.tgt, a)]
 RunOp(p, g, x) == IF g.cast THEN [k |-> "val", v |-> x]
                   ELSE LET hit == {j \in DOMAIN g.cases : g.cases[j].v = x} IN
@@ -83,18 +86,22 @@ EnumsOver(vals, maxLen) == UNION { {[i \in 1..Len(ns) |-> [n |-> ns[i], v |-> f[
 Unknowns == {"", "@error", "@panic", "@ignore", "A", "Z", "@bogus"}
 Maps == {<<>>, <<"A", "B">>, <<"A", "@ignore">>, <<"Z", "A">>, <<"B", "@panic">>, <<"A", "@error">>}
 Inputs == <<0, 1, 2, 9>>
+\* underlying kinds other than int: float64 and string enums (abstract values 0, 1 are materialised as 0.5 / 1.5 and "x" / "y")
+Kinds == {"float", "string"}
 Trs == {<<"A", "B">>, <<"B", "C">>, <<"A", "Z">>}
-Base == [tr |-> <<>>, same |-> FALSE]
+Base == [tr |-> <<>>, same |-> FALSE, kind |-> "int"]
 Progs(maxLen) ==
   LET E == EnumsOver({0, 1}, maxLen) IN
   {Base @@ [src |-> s, tgt |-> t, map |-> m, unknown |-> u, rootErr |-> e, pos |-> "top", enumOn |-> TRUE] : s \in E, t \in E, m \in Maps, u \in Unknowns, e \in BOOLEAN}
   \cup {Base @@ [src |-> s, tgt |-> t, map |-> <<>>, unknown |-> u, rootErr |-> e, pos |-> ps, enumOn |-> TRUE] : s \in E, t \in E, u \in Unknowns, e \in BOOLEAN, ps \in {"field", "elem"}}
   \cup {Base @@ [src |-> s, tgt |-> t, map |-> <<>>, unknown |-> u, rootErr |-> FALSE, pos |-> ps, enumOn |-> FALSE] : s \in E, t \in E, u \in {"", "@panic"}, ps \in {"top", "field"}}
   \* one transformer, alone and together with an enum:map line for the same / another member
-  \cup {[tr |-> x, same |-> FALSE, src |-> s, tgt |-> t, map |-> m, unknown |-> u, rootErr |-> TRUE, pos |-> "top", enumOn |-> TRUE] :
+  \cup {[kind |-> "int", tr |-> x, same |-> FALSE, src |-> s, tgt |-> t, map |-> m, unknown |-> u, rootErr |-> TRUE, pos |-> "top", enumOn |-> TRUE] :
            s \in E, t \in E, x \in Trs, m \in {<<>>, <<"A", "C">>, <<"A", "@ignore">>, <<"B", "A">>}, u \in {"@error", "@ignore"}}
+  \cup {[kind |-> k, tr |-> <<>>, same |-> FALSE, src |-> s, tgt |-> t, map |-> <<>>, unknown |-> u, rootErr |-> TRUE, pos |-> "top", enumOn |-> TRUE] :
+           k \in Kinds, s \in E, t \in E, u \in {"@error", "@ignore", "A"}}
   \* the same enum type on both sides
   \* (enum:map lines are only enumerated on methods whose own pair is the enum pair: a nested pair becomes a generated method)
-  \cup {q \in {[tr |-> <<>>, same |-> TRUE, src |-> s, tgt |-> s, map |-> m, unknown |-> u, rootErr |-> e, pos |-> ps, enumOn |-> TRUE] :
+  \cup {q \in {[kind |-> "int", tr |-> <<>>, same |-> TRUE, src |-> s, tgt |-> s, map |-> m, unknown |-> u, rootErr |-> e, pos |-> ps, enumOn |-> TRUE] :
                   s \in E, m \in {<<>>, <<"A", "@panic">>}, u \in Unknowns, e \in BOOLEAN, ps \in {"top", "field", "elem"}} : q.map = <<>> \/ q.pos = "top"}
 =============================================================================
